@@ -253,6 +253,14 @@ def worker(seed, n, outpath):
         def del_route(self, iface, pi):
             self.w.del_route(iface, pi)
 
+        @rule(k=st.integers(0, 63))
+        def del_existing(self, k):
+            # a deletion that hits: one of the routes the kernel model holds right now
+            keys = sorted(self.w.kernel.routes)
+            if keys:
+                iface, prefix, plen = keys[k % len(keys)]
+                self.w.del_route(iface, PREFIXES.index((prefix, plen)))
+
         @rule(iface=st.sampled_from(["access", "core", "mgmt"]), ni=st.integers(0, 2))
         def resolve(self, iface, ni):
             self.w.resolve(iface, ni)
